@@ -73,12 +73,18 @@ pub fn linearizability(p: &Program, r: &RunResult, stats: &mut LinStats, flavour
     let set = p.cfg.set;
     let v2k = vid_to_key(p);
     let mut per_key: BTreeMap<u32, Vec<KOp>> = BTreeMap::new();
+    // resize generations that are in progress at some instant of [a, b]: `clear` starts over in
+    // the next table every time it meets a forwarding marker, so it may sweep a key's bin once
+    // per such generation (plus once in the table it started in)
     let resizes_in = |a: u64, b: u64| -> usize {
-        r.outcome
-            .events
-            .iter()
-            .filter(|e| e.ev == Ev::Published && e.clock >= a && e.clock <= b)
-            .count()
+        let mut n = 0;
+        for s in r.outcome.events.iter().filter(|e| e.ev == Ev::ResizeStarted && e.clock <= b) {
+            let published = r.outcome.events.iter().find(|e| e.ev == Ev::Published && e.a == s.a && e.clock >= s.clock).map(|e| e.clock);
+            if published.map(|pc| pc >= a).unwrap_or(true) {
+                n += 1;
+            }
+        }
+        n
     };
     // iterator open stamps per thread
     let mut iter_open: BTreeMap<u8, u64> = BTreeMap::new();
@@ -305,6 +311,9 @@ pub fn collects(r: &RunResult) -> Vec<Violation> {
 /// C03: references and memory.
 pub fn memory(r: &RunResult) -> Vec<Violation> {
     let mut out = Vec::new();
+    for e in &r.retire_errors {
+        out.push(v("retired-while-reachable", e.clone()));
+    }
     for e in &r.ref_errors {
         out.push(v("dangling-reference", e.clone()));
     }
